@@ -21,14 +21,19 @@ pub enum Flavour {
     BitTuple,
     VecArrRecombine,
     BitTupleRef,
+    /// genes of 136 bytes that own heap memory (a gene type can be anything)
+    WideArr,
+    WideTuple,
 }
-const FLAVOURS: [Flavour; 6] = [
+const FLAVOURS: [Flavour; 8] = [
     Flavour::VecArr,
     Flavour::VecTuple,
     Flavour::BitArr,
     Flavour::BitTuple,
     Flavour::VecArrRecombine,
     Flavour::BitTupleRef,
+    Flavour::WideArr,
+    Flavour::WideTuple,
 ];
 
 /// the child as a vector of "which parent did position i come from" (1 or 2; 0 = neither)
@@ -40,6 +45,19 @@ pub enum XoObs {
     Panic(String),
 }
 
+#[derive(Clone, Debug, PartialEq, Eq)]
+struct WideTag {
+    parent: u8,
+    pos: usize,
+    name: String,
+    pad: [u64; 14],
+}
+fn wide_tagged(p: u8, l: usize) -> Vec<WideTag> {
+    (0..l).map(|i| WideTag { parent: p, pos: i, name: format!("gene {i} of parent {p}"), pad: [i as u64; 14] }).collect()
+}
+fn from_wide(c: &[WideTag]) -> Vec<u8> {
+    c.iter().enumerate().map(|(i, g)| if g.pos == i && g.name == format!("gene {i} of parent {}", g.parent) && g.pad == [i as u64; 14] { g.parent } else { 0 }).collect()
+}
 fn tagged(p: u8, l: usize) -> Vec<Tag> {
     (0..l).map(|i| (p, i)).collect()
 }
@@ -104,6 +122,8 @@ pub fn recombine(two_point: bool, f: Flavour, l1: usize, l2: usize, env: &mut En
                 Flavour::BitTuple => op.recombine((bits(1, l1), bits(2, l2)), &mut rng).map(|c| from_bits(&c)).map_err(|e| is_length_err(&e)),
                 Flavour::VecArrRecombine => Recombine::new(&op).apply([tagged(1, l1), tagged(2, l2)], &mut rng).map(|c| from_tags(&c)).map_err(|e| is_length_err(&e)),
                 Flavour::BitTupleRef => (&&op).recombine((bits(1, l1), bits(2, l2)), &mut rng).map(|c| from_bits(&c)).map_err(|e| is_length_err(&e)),
+                Flavour::WideArr => op.recombine([wide_tagged(1, l1), wide_tagged(2, l2)], &mut rng).map(|c| from_wide(&c)).map_err(|e| is_length_err(&e)),
+                Flavour::WideTuple => op.recombine((wide_tagged(1, l1), wide_tagged(2, l2)), &mut rng).map(|c| from_wide(&c)).map_err(|e| is_length_err(&e)),
             });
             match r {
                 Ok(Ok(c)) => XoObs::Child(c),
@@ -745,7 +765,7 @@ pub fn run(run: &mut Run) {
     run.states = cases.len() as u64 + p;
     run.traces_validated = run.evaluations;
     run.distinct_nontrivial = nontrivial;
-    run.rule = "TwoPointXo and UniformXo in 6 flavours ([Vec;2], (Vec,Vec), [Bitstring;2], (Bitstring,Bitstring), through Recombine, behind &) x all length pairs 0..L x all grid word sequences on tagged parents (and, lengths <= 4, all sequences over the grid plus the extreme words 0 and all-ones, per-leaf oracle only); per leaf: error iff lengths differ, child gene i from a parent's position i, one contiguous segment (two-point); over all leaves: every segment [a,b) reachable, uniform mask law exactly 2^-l; plus long genomes (around 64 and 128 genes): two-point with both cut points enumerated, uniform under every stream with at most 1 (thorough 2) non-default words, per-leaf oracle + every position seen from either parent + every pair of positions seen from different parents (independence) + every segment; genomes of 999..65537 (thorough ..1000003) genes with the per-leaf oracle on every stream with at most two (uniform: one) non-default words among the first 8 (6); both ends (uniform: the first gene) reachable from either parent; plus crossover_gene / crossover_segment for all indices / ranges up to length+2 on all length pairs 0..4, and on long bitstrings of equal and different sizes (primitives.long_size_pairs) for every segment length 0..=1100 from six start positions. non-trivial = scenarios with more than one distinct child".into();
+    run.rule = "TwoPointXo and UniformXo in 8 flavours ([Vec;2], (Vec,Vec), [Bitstring;2], (Bitstring,Bitstring), through Recombine, behind &, and vectors of 136-byte heap-owning genes as array and tuple) x all length pairs 0..L x all grid word sequences on tagged parents (and, lengths <= 4, all sequences over the grid plus the extreme words 0 and all-ones, per-leaf oracle only); per leaf: error iff lengths differ, child gene i from a parent's position i, one contiguous segment (two-point); over all leaves: every segment [a,b) reachable, uniform mask law exactly 2^-l; plus long genomes (around 64 and 128 genes): two-point with both cut points enumerated, uniform under every stream with at most 1 (thorough 2) non-default words, per-leaf oracle + every position seen from either parent + every pair of positions seen from different parents (independence) + every segment; genomes of 999..65537 (thorough ..1000003) genes with the per-leaf oracle on every stream with at most two (uniform: one) non-default words among the first 8 (6); both ends (uniform: the first gene) reachable from either parent; plus crossover_gene / crossover_segment for all indices / ranges up to length+2 on all length pairs 0..4, and on long bitstrings of equal and different sizes (primitives.long_size_pairs) for every segment length 0..=1100 from six start positions. non-trivial = scenarios with more than one distinct child".into();
     run.bound("max_length", json!(max_l));
     run.bound("alphabet", json!("Grid(l*(l+1)) for two-point, Grid(2) for uniform"));
     run.assumptions = vec!["Grid(l(l+1)) is exact for cut points drawn from 0..l as well as from 0..=l".into()];
